@@ -4,7 +4,10 @@ L0 — lemmas about `mulRow`, `gauss` (boolean Gaussian elimination with the
 code's sign rule), the generated group, and the reduced form.  Interface for
 the C13 (equality / membership) and C14 (measurement) property files.
 -/
-namespace SqVerif.Stab
+namespace SqVerif.Stab.Gauss
+/- All declarations live in `SqVerif.Stab.Gauss` (generic helper names would
+clash with the gate files); the interface names are re-exported into
+`SqVerif.Stab` at the end of the file. -/
 
 /-! ### letters: the code's counting rule is the phase exponent -/
 
@@ -104,7 +107,7 @@ theorem pairComm_dens {n : Nat} {g : List Row} (h : Commuting n g) : PairComm (d
   obtain ⟨q, hq, rfl⟩ := List.mem_map.1 hb
   exact h.comm r hr q hq
 
-theorem Commuting.tail {n : Nat} {r : Row} {g : List Row} (h : Commuting n (r :: g)) : Commuting n g :=
+theorem commuting_tail {n : Nat} {r : Row} {g : List Row} (h : Commuting n (r :: g)) : Commuting n g :=
   ⟨fun a ha => h.width a (by simp [ha]), fun a ha b hb => h.comm a (by simp [ha]) b (by simp [hb])⟩
 
 theorem mul_one (n : Nat) (p : POp) (h : p.len = n) : p ⋆ one n ≈ₚ p :=
@@ -208,9 +211,9 @@ theorem sameGroup_of_mutual {n : Nat} {g g' : List Row} (hg : Commuting n g) (hg
   · intro hp
     exact inGroup_of_gen hg (gen_mono (fun r hr => gen_of_inGroup (h2 r hr)) (gen_of_inGroup hp))
 
-theorem SameGroup.refl (n : Nat) (g : List Row) : SameGroup n g g := fun _ => Iff.rfl
-theorem SameGroup.symm {n : Nat} {g h : List Row} (e : SameGroup n g h) : SameGroup n h g := fun p => (e p).symm
-theorem SameGroup.trans {n : Nat} {g h k : List Row} (e : SameGroup n g h) (e' : SameGroup n h k) : SameGroup n g k :=
+theorem sameGroup_refl (n : Nat) (g : List Row) : SameGroup n g g := fun _ => Iff.rfl
+theorem sameGroup_symm {n : Nat} {g h : List Row} (e : SameGroup n g h) : SameGroup n h g := fun p => (e p).symm
+theorem sameGroup_trans {n : Nat} {g h k : List Row} (e : SameGroup n g h) (e' : SameGroup n h k) : SameGroup n g k :=
   fun p => (e p).trans (e' p)
 
 /-- every group element has width `n`, is Hermitian and commutes with anything that commutes with the rows -/
@@ -338,14 +341,1042 @@ theorem gaussStep_some {w : Nat} {rows : List Row} {h k i : Nat} (hf : firstFrom
   unfold gaussStep
   rw [hf]
   simp only [Prod.mk.injEq, and_true]
+  generalize hr1 : (if i = h then rows else swapRows rows h i) = rows1
+  have len1 : rows1.length = rows.length := by
+    subst hr1; split <;> simp [swapRows]
+  have key : ∀ idx, rows1.getD idx dflt = rows.getD (sw h i idx) dflt := by
+    intro idx; subst hr1; split
+    · next e => subst e; rw [sw_self]
+    · exact swapRows_getD rows h i idx hhl hil
+  have hpiv : rows1.getD h dflt = rows.getD i dflt := by rw [key]; simp [sw]
   apply List.ext_getElem?
   intro idx
   by_cases hidx : idx < rows.length
-  · rw [List.getElem?_mapIdx]
+  · have hidx1 : idx < rows1.length := by omega
+    have e1 : rows1[idx]? = some (rows1.getD idx dflt) := by
+      simp [List.getD_eq_getElem?_getD, List.getElem?_eq_getElem hidx1]
+    rw [List.getElem?_mapIdx, e1]
     simp only [stepRows, List.getElem?_map, List.getElem?_range hidx, Option.map_some]
-    trace_state
-    sorry
-  · trace_state
-    sorry
+    change some (if idx ≠ h ∧ Row.bit w (rows1.getD idx dflt) k = true then
+          mulRow (rows1.getD idx dflt) (rows1.getD h dflt) else rows1.getD idx dflt) = _
+    rw [hpiv, key]
+  · rw [List.getElem?_eq_none (by rw [List.length_mapIdx]; omega),
+      List.getElem?_eq_none (by rw [stepRows_length]; omega)]
 
+theorem gaussStep_none {w : Nat} {rows : List Row} {h k : Nat} (hf : firstFrom w rows h k = none) :
+    gaussStep w rows h k = (rows, h) := by
+  unfold gaussStep; rw [hf]
+
+/-- induction principle for the elimination loop -/
+theorem gaussLoop_induct (w : Nat) (Q : List Row → Nat → Nat → Prop)
+    (hnone : ∀ rows h k, Q rows h k → h < rows.length → k < 2 * w + 1 → firstFrom w rows h k = none → Q rows h (k + 1))
+    (hsome : ∀ rows h k i, Q rows h k → h < rows.length → k < 2 * w + 1 → firstFrom w rows h k = some i →
+      Q (stepRows w rows h k i) (h + 1) (k + 1)) :
+    ∀ fuel rows h k, k + fuel = 2 * w + 1 → Q rows h k →
+      ∃ h' k', Q (gaussLoop w rows h k fuel) h' k' ∧
+        ((gaussLoop w rows h k fuel).length ≤ h' ∨ 2 * w + 1 ≤ k') := by
+  intro fuel
+  induction fuel with
+  | zero =>
+    intro rows h k hk hQ
+    exact ⟨h, k, hQ, Or.inr (by omega)⟩
+  | succ fuel ih =>
+    intro rows h k hk hQ
+    unfold gaussLoop
+    split
+    · next hc =>
+      cases hf : firstFrom w rows h k with
+      | none =>
+        rw [gaussStep_none hf]
+        exact ih rows h (k + 1) (by omega) (hnone rows h k hQ hc.1 hc.2 hf)
+      | some i =>
+        rw [gaussStep_some hf]
+        exact ih _ (h + 1) (k + 1) (by omega) (hsome rows h k i hQ hc.1 hc.2 hf)
+    · next hc =>
+      exact ⟨h, k, hQ, by omega⟩
+
+theorem gauss_induct (w : Nat) (Q : List Row → Nat → Nat → Prop) (rows : List Row)
+    (hnone : ∀ rows h k, Q rows h k → h < rows.length → k < 2 * w + 1 → firstFrom w rows h k = none → Q rows h (k + 1))
+    (hsome : ∀ rows h k i, Q rows h k → h < rows.length → k < 2 * w + 1 → firstFrom w rows h k = some i →
+      Q (stepRows w rows h k i) (h + 1) (k + 1))
+    (h0 : Q rows 0 0) :
+    ∃ h' k', Q (gauss w rows) h' k' ∧ ((gauss w rows).length ≤ h' ∨ 2 * w + 1 ≤ k') :=
+  gaussLoop_induct w Q hnone hsome (2 * w + 1) rows 0 0 (by omega) h0
+
+/-- a property preserved by every elimination step is preserved by `gauss` -/
+theorem gauss_preserve (w : Nat) (P : List Row → Prop) (rows : List Row)
+    (hstep : ∀ rows h k i, P rows → firstFrom w rows h k = some i → P (stepRows w rows h k i))
+    (h0 : P rows) : P (gauss w rows) := by
+  obtain ⟨_, _, h, _⟩ := gauss_induct w (fun r _ _ => P r) rows (fun _ _ _ hQ _ _ _ => hQ)
+    (fun rows h k i hQ _ _ hf => hstep rows h k i hQ hf) h0
+  exact h
+
+theorem gauss_length (w : Nat) (rows : List Row) : (gauss w rows).length = rows.length :=
+  gauss_preserve w (fun r => r.length = rows.length) rows
+    (fun r h k i hP _ => by rw [stepRows_length]; exact hP) rfl
+
+theorem getD_mem (rows : List Row) (j : Nat) (hj : j < rows.length) : rows.getD j dflt ∈ rows := by
+  rw [List.getD_eq_getElem?_getD, List.getElem?_eq_getElem hj]
+  exact List.getElem_mem hj
+
+theorem mem_getD {rows : List Row} {r : Row} (h : r ∈ rows) : ∃ j, j < rows.length ∧ rows.getD j dflt = r := by
+  obtain ⟨j, hj, e⟩ := List.mem_iff_getElem.1 h
+  exact ⟨j, hj, by rw [List.getD_eq_getElem?_getD, List.getElem?_eq_getElem hj]; simpa using e⟩
+
+theorem mem_of_getD {rows : List Row} {r : Row} {j : Nat} (hj : j < rows.length) (h : rows.getD j dflt = r) : r ∈ rows :=
+  h ▸ getD_mem rows j hj
+
+/-- every new row is an old row or an old row times the pivot row -/
+theorem mem_stepRows {w : Nat} {rows : List Row} {h k i : Nat} (hh : h < rows.length) (hi : i < rows.length)
+    {r' : Row} (hr : r' ∈ stepRows w rows h k i) :
+    r' ∈ rows ∨ ∃ r, r ∈ rows ∧ r' = mulRow r (rows.getD i dflt) := by
+  obtain ⟨idx, hidx, e⟩ := List.mem_map.1 hr
+  have hidx := List.mem_range.1 hidx
+  have hm := getD_mem rows (sw h i idx) (sw_lt hh hi hidx)
+  simp only at e
+  split at e
+  · exact Or.inr ⟨_, hm, e.symm⟩
+  · exact Or.inl (e ▸ hm)
+
+theorem piv_mem_stepRows {w : Nat} {rows : List Row} {h k i : Nat} (hh : h < rows.length) :
+    rows.getD i dflt ∈ stepRows w rows h k i := by
+  apply mem_of_getD (j := h) (by rw [stepRows_length]; exact hh)
+  rw [stepRows_getD _ _ _ _ _ _ hh]
+  simp [sw]
+
+/-- every old row is a new row, or a new row is it times the pivot row -/
+theorem mem_stepRows_conv {w : Nat} {rows : List Row} {h k i : Nat} (hh : h < rows.length) (hi : i < rows.length)
+    {r : Row} (hr : r ∈ rows) :
+    r ∈ stepRows w rows h k i ∨ mulRow r (rows.getD i dflt) ∈ stepRows w rows h k i := by
+  obtain ⟨j, hj, e⟩ := mem_getD hr
+  have hidx : sw h i j < rows.length := sw_lt hh hi hj
+  have := stepRows_getD w rows h k i (sw h i j) hidx
+  rw [sw_sw, e] at this
+  simp only at this
+  split at this
+  · exact Or.inr (mem_of_getD (by rw [stepRows_length]; exact hidx) this)
+  · exact Or.inl (mem_of_getD (by rw [stepRows_length]; exact hidx) this)
+
+theorem comm_of_inGroup {n : Nat} {g : List Row} (hg : Commuting n g) {p q : POp}
+    (hp : InGroup n g p) (hq : InGroup n g q) : antiL p.ps q.ps = false := by
+  apply inGroup_comm hg.width (inGroup_len hg.width hp) _ hq
+  intro r hr
+  rw [antiL_comm]
+  exact inGroup_comm hg.width (q := r.den) (hg.width r hr) (fun r' hr' => hg.comm r hr r' hr') hp
+
+theorem commuting_of_rows_inGroup {n : Nat} {g g' : List Row} (hg : Commuting n g)
+    (h : ∀ r, r ∈ g' → InGroup n g r.den) : Commuting n g' :=
+  ⟨fun r hr => inGroup_len hg.width (h r hr), fun a ha b hb => comm_of_inGroup hg (h a ha) (h b hb)⟩
+
+theorem inGroup_mulRow {n : Nat} {g : List Row} (hg : Commuting n g) {a b : Row}
+    (ha : InGroup n g a.den) (hb : InGroup n g b.den) : InGroup n g (mulRow a b).den := by
+  have la := inGroup_len hg.width ha
+  have lb := inGroup_len hg.width hb
+  exact inGroup_eqv (inGroup_mul hg ha hb)
+    (eqv_symm (mulRow_den a b (la.trans lb.symm) (comm_of_inGroup hg ha hb)))
+
+theorem mul_mul_cancel (n : Nat) (p q : POp) (hp : p.len = n) (hq : q.len = n) (hh : q.ph % 2 = 0) :
+    (p ⋆ q) ⋆ q ≈ₚ p := by
+  refine eqv_trans (mul_assoc p q q (by simpa [POp.len] using hp.trans hq.symm) rfl) ?_
+  refine eqv_trans (mul_congr (eqv_refl p) (mul_self q hh)) ?_
+  rw [hq]
+  exact mul_one n p hp
+
+theorem stepRows_inGroup {w n : Nat} {rows : List Row} {h k i : Nat} (hg : Commuting n rows)
+    (hh : h < rows.length) (hi : i < rows.length) :
+    ∀ r, r ∈ stepRows w rows h k i → InGroup n rows r.den := by
+  intro r' hr'
+  rcases mem_stepRows hh hi hr' with hm | ⟨r, hm, rfl⟩
+  · exact inGroup_mem hg.width hm
+  · exact inGroup_mulRow hg (inGroup_mem hg.width hm) (inGroup_mem hg.width (getD_mem rows i hi))
+
+theorem stepRows_commuting {w n : Nat} {rows : List Row} {h k i : Nat} (hg : Commuting n rows)
+    (hh : h < rows.length) (hi : i < rows.length) : Commuting n (stepRows w rows h k i) :=
+  commuting_of_rows_inGroup hg (stepRows_inGroup hg hh hi)
+
+theorem stepRows_sameGroup {w n : Nat} {rows : List Row} {h k i : Nat} (hg : Commuting n rows)
+    (hh : h < rows.length) (hi : i < rows.length) : SameGroup n (stepRows w rows h k i) rows := by
+  have hg' := stepRows_commuting (w := w) (k := k) hg hh hi
+  apply sameGroup_of_mutual hg' hg (stepRows_inGroup hg hh hi)
+  intro r hr
+  have hp : rows.getD i dflt ∈ rows := getD_mem rows i hi
+  rcases mem_stepRows_conv (w := w) (k := k) hh hi hr with hm | hm
+  · exact inGroup_mem hg'.width hm
+  · have hpm := piv_mem_stepRows (w := w) (k := k) (i := i) hh
+    have e := mulRow_den r (rows.getD i dflt) ((hg.width r hr).trans (hg.width _ hp).symm) (hg.comm r hr _ hp)
+    have h1 := inGroup_mul hg' (inGroup_mem hg'.width hm) (inGroup_mem hg'.width hpm)
+    refine inGroup_eqv h1 ?_
+    refine eqv_trans (mul_congr e (eqv_refl _)) ?_
+    exact mul_mul_cancel n _ _ (hg.width r hr) (hg.width _ hp) (den_herm _)
+
+theorem gauss_commuting (w : Nat) (rows : List Row) (h : Commuting w rows) : Commuting w (gauss w rows) :=
+  gauss_preserve w (Commuting w) rows
+    (fun r _ _ _ hP hf => by
+      obtain ⟨h1, h2, _, _⟩ := firstFrom_some hf
+      exact stepRows_commuting hP (by omega) h2) h
+
+theorem gauss_sameGroup (w : Nat) (rows : List Row) (h : Commuting w rows) : SameGroup w (gauss w rows) rows := by
+  have := gauss_preserve w (fun r => Commuting w r ∧ SameGroup w r rows) rows
+    (fun r _ _ _ hP hf => by
+      obtain ⟨h1, h2, _, _⟩ := firstFrom_some hf
+      exact ⟨stepRows_commuting hP.1 (by omega) h2,
+        sameGroup_trans (stepRows_sameGroup hP.1 (by omega) h2) hP.2⟩) ⟨h, sameGroup_refl _ _⟩
+  exact this.2
+
+/-! ### bits -/
+
+/-- letter columns of the matrix: `k < w` the X part, `w ≤ k < 2w` the Z part -/
+def lbit (w : Nat) (ps : List P1) (k : Nat) : Bool :=
+  if k < w then (getP ps k).1 else if k < 2 * w then (getP ps (k - w)).2 else false
+
+theorem bit_lt (w : Nat) (r : Row) (k : Nat) (hk : k < 2 * w) : r.bit w k = lbit w r.ps k := by
+  unfold Row.bit lbit Row.x Row.z
+  split
+  · rfl
+  · first | rfl | rw [if_pos hk, if_pos hk]
+
+theorem bit_sign (w : Nat) (r : Row) : r.bit w (2 * w) = r.neg := by
+  unfold Row.bit
+  rw [if_neg (by omega), if_neg (by omega), if_pos rfl]
+
+theorem bit_gt (w : Nat) (r : Row) (k : Nat) (hk : 2 * w < k) : r.bit w k = false := by
+  unfold Row.bit
+  rw [if_neg (by omega), if_neg (by omega), if_neg (by omega)]
+
+theorem getP_cons_zero (a : P1) (as : List P1) : getP (a :: as) 0 = a := rfl
+theorem getP_cons_succ (a : P1) (as : List P1) (j : Nat) : getP (a :: as) (j + 1) = getP as j := by
+  simp [getP]
+
+theorem getP_mulL (as bs : List P1) (h : as.length = bs.length) (j : Nat) :
+    getP (mulL as bs) j = mul1 (getP as j) (getP bs j) := by
+  induction as generalizing bs j with
+  | nil => cases bs with
+    | nil => simp [mulL, getP_nil, mul1]
+    | cons b bs => simp at h
+  | cons a as ih => cases bs with
+    | nil => simp at h
+    | cons b bs =>
+      cases j with
+      | zero => rfl
+      | succ j => simp only [mulL, getP_cons_succ]; exact ih bs (by simpa using h) j
+
+theorem lbit_mulL (w : Nat) (as bs : List P1) (h : as.length = bs.length) (k : Nat) :
+    lbit w (mulL as bs) k = (lbit w as k != lbit w bs k) := by
+  unfold lbit
+  simp only [getP_mulL as bs h, mul1]
+  split
+  · rfl
+  · split <;> rfl
+
+theorem mulRow_bit (w : Nat) (a b : Row) (h : a.ps.length = b.ps.length) (k : Nat) (hk : k < 2 * w) :
+    (mulRow a b).bit w k = (a.bit w k != b.bit w k) := by
+  rw [bit_lt w _ k hk, bit_lt w _ k hk, bit_lt w _ k hk]
+  exact lbit_mulL w a.ps b.ps h k
+
+theorem letters_id_of_bits (w : Nat) (ps : List P1) (hl : ps.length = w)
+    (h : ∀ k, k < 2 * w → lbit w ps k = false) (j : Nat) : getP ps j = (false, false) := by
+  by_cases hj : j < w
+  · have h1 := h j (by omega)
+    have h2 := h (w + j) (by omega)
+    unfold lbit at h1 h2
+    rw [if_pos hj] at h1
+    rw [if_neg (by omega), if_pos (by omega)] at h2
+    have : w + j - w = j := by omega
+    rw [this] at h2
+    exact Prod.ext h1 h2
+  · simp [getP, List.getD_eq_getElem?_getD, List.getElem?_eq_none (show ps.length ≤ j by omega)]
+
+theorem counts_id (as bs : List P1) (hb : ∀ j, getP bs j = (false, false)) :
+    countI as bs = 0 ∧ countMinusI as bs = 0 := by
+  induction as generalizing bs with
+  | nil => cases bs <;> simp [countI, countMinusI]
+  | cons a as ih =>
+    cases bs with
+    | nil => simp [countI, countMinusI]
+    | cons b bs =>
+      have hb0 : b = (false, false) := hb 0
+      have := ih bs (fun j => by have := hb (j + 1); rwa [getP_cons_succ] at this)
+      subst hb0
+      rcases a with ⟨a1, a2⟩
+      simp only [countI, countMinusI, this.1, this.2]
+      cases a1 <;> cases a2 <;> simp [isI, isMinusI]
+
+theorem mulRow_neg_id (a b : Row) (hb : ∀ j, getP b.ps j = (false, false)) :
+    (mulRow a b).neg = (a.neg != b.neg) := by
+  have := counts_id a.ps b.ps hb
+  simp [mulRow, hasMinusPhase, this.1, this.2]
+
+/-! ### the reduced form -/
+
+/-- `t` is in reduced row echelon form over all `2w+1` columns with `h` pivot
+rows `0..h-1`, pivot columns `piv 0 < … < piv (h-1)`; rows from `h` on are zero. -/
+structure RedAt (w : Nat) (t : List Row) (h : Nat) (piv : Nat → Nat) : Prop where
+  hle : h ≤ t.length
+  mono : ∀ i j, i < j → j < h → piv i < piv j
+  lt : ∀ i, i < h → piv i < 2 * w + 1
+  one : ∀ i, i < h → (t.getD i dflt).bit w (piv i) = true
+  lead : ∀ i, i < h → ∀ c, c < piv i → (t.getD i dflt).bit w c = false
+  uniq : ∀ i, i < h → ∀ j, j ≠ i → (t.getD j dflt).bit w (piv i) = false
+  zero : ∀ j, h ≤ j → ∀ c, (t.getD j dflt).bit w c = false
+
+def Reduced (w : Nat) (t : List Row) : Prop := ∃ h piv, RedAt w t h piv
+
+/-- loop invariant: columns `< k` processed, `h` pivots found -/
+structure RInv (w : Nat) (t : List Row) (h k : Nat) (piv : Nat → Nat) : Prop where
+  wid : ∀ r, r ∈ t → r.ps.length = w
+  kle : k ≤ 2 * w + 1
+  hle : h ≤ t.length
+  mono : ∀ i j, i < j → j < h → piv i < piv j
+  lt : ∀ i, i < h → piv i < k
+  one : ∀ i, i < h → (t.getD i dflt).bit w (piv i) = true
+  lead : ∀ i, i < h → ∀ c, c < piv i → (t.getD i dflt).bit w c = false
+  uniq : ∀ i, i < h → ∀ j, j ≠ i → (t.getD j dflt).bit w (piv i) = false
+  low : ∀ j, h ≤ j → ∀ c, c < k → (t.getD j dflt).bit w c = false
+
+theorem stepRows_width {w : Nat} {rows : List Row} {h k i : Nat} (hw : ∀ r, r ∈ rows → r.ps.length = w)
+    (hh : h < rows.length) (hi : i < rows.length) : ∀ r, r ∈ stepRows w rows h k i → r.ps.length = w := by
+  intro r' hr'
+  rcases mem_stepRows hh hi hr' with hm | ⟨r, hm, rfl⟩
+  · exact hw _ hm
+  · rw [mulRow_len _ _ ((hw r hm).trans (hw _ (getD_mem rows i hi)).symm)]; exact hw r hm
+
+section step
+variable {w : Nat} {rows : List Row} {h k i : Nat}
+
+/-- columns below the pivot column are only permuted -/
+theorem step_bit_lt (hw : ∀ r, r ∈ rows → r.ps.length = w) (hk : k < 2 * w + 1) (hh : h < rows.length)
+    (hi : i < rows.length) (hlow : ∀ c, c < k → (rows.getD i dflt).bit w c = false)
+    (idx c : Nat) (hidx : idx < rows.length) (hc : c < k) :
+    ((stepRows w rows h k i).getD idx dflt).bit w c = (rows.getD (sw h i idx) dflt).bit w c := by
+  rw [stepRows_getD _ _ _ _ _ _ hidx]
+  simp only
+  split
+  · have hm := getD_mem rows (sw h i idx) (sw_lt hh hi hidx)
+    rw [mulRow_bit w _ _ ((hw _ hm).trans (hw _ (getD_mem rows i hi)).symm) c (by omega), hlow c hc]
+    simp
+  · rfl
+
+/-- the pivot column is cleared everywhere but in row `h` -/
+theorem step_bit_k (hw : ∀ r, r ∈ rows → r.ps.length = w) (hk : k < 2 * w + 1) (hh : h < rows.length)
+    (hi : i < rows.length) (hlow : ∀ c, c < k → (rows.getD i dflt).bit w c = false)
+    (hone : (rows.getD i dflt).bit w k = true) (idx : Nat) (hidx : idx < rows.length) :
+    ((stepRows w rows h k i).getD idx dflt).bit w k = decide (idx = h) := by
+  rw [stepRows_getD _ _ _ _ _ _ hidx]
+  simp only
+  have hpm := getD_mem rows i hi
+  split
+  · next hc =>
+    have hm := getD_mem rows (sw h i idx) (sw_lt hh hi hidx)
+    have hl := (hw _ hm).trans (hw _ hpm).symm
+    rw [decide_eq_false hc.1]
+    by_cases hk2 : k < 2 * w
+    · rw [mulRow_bit w _ _ hl k hk2, hc.2, hone]; rfl
+    · have hk3 : k = 2 * w := by omega
+      subst hk3
+      have hid : ∀ j, getP (rows.getD i dflt).ps j = (false, false) :=
+        letters_id_of_bits w _ (hw _ hpm) (fun c hc => by rw [← bit_lt w _ c hc]; exact hlow c hc)
+      rw [bit_sign, mulRow_neg_id _ _ hid, ← bit_sign w, ← bit_sign w, hc.2, hone]; rfl
+  · next hc =>
+    by_cases e : idx = h
+    · subst e
+      have : sw idx i idx = i := by simp [sw]
+      rw [this, hone]; simp
+    · rw [decide_eq_false e]
+      have : ¬ (rows.getD (sw h i idx) dflt).bit w k = true := fun hb => hc ⟨e, hb⟩
+      simpa using this
+
+end step
+
+theorem rinv_step {w : Nat} {rows : List Row} {h k i : Nat} {piv : Nat → Nat} (hI : RInv w rows h k piv)
+    (hk : k < 2 * w + 1) (hf : firstFrom w rows h k = some i) :
+    RInv w (stepRows w rows h k i) (h + 1) (k + 1) (fun j => if j = h then k else piv j) := by
+  obtain ⟨hhi, hil, hone, _⟩ := firstFrom_some hf
+  have hh : h < rows.length := by omega
+  have hlow : ∀ c, c < k → (rows.getD i dflt).bit w c = false := fun c hc => hI.low i hhi c hc
+  have bl := step_bit_lt hI.wid hk hh hil hlow
+  have bk := step_bit_k hI.wid hk hh hil hlow hone
+  have swlt : ∀ j, j < h → sw h i j = j := fun j hj => by unfold sw; rw [if_neg (by omega), if_neg (by omega)]
+  have swge : ∀ j, h ≤ j → h ≤ sw h i j := fun j hj => by unfold sw; repeat' split
+                                                          all_goals omega
+  have hlen := stepRows_length w rows h k i
+  refine ⟨stepRows_width hI.wid hh hil, by omega, by rw [hlen]; omega, ?_, ?_, ?_, ?_, ?_, ?_⟩
+  · intro a b hab hb
+    by_cases e : b = h
+    · rw [if_neg (by omega), if_pos e]; exact hI.lt a (by omega)
+    · rw [if_neg (by omega), if_neg e]; exact hI.mono a b hab (by omega)
+  · intro a ha
+    split
+    · omega
+    · have := hI.lt a (by omega); omega
+  · intro a ha
+    split
+    · next e => subst e; rw [bk a hh]; simp
+    · next e =>
+      have ha' : a < h := by omega
+      rw [bl a (piv a) (by omega) (hI.lt a ha'), swlt a ha']
+      exact hI.one a ha'
+  · intro a ha c hc
+    split at hc
+    · next e => subst e; rw [bl a c hh hc]; exact hI.low _ (swge a (Nat.le_refl _)) c hc
+    · next e =>
+      have ha' : a < h := by omega
+      rw [bl a c (by omega) (by have := hI.lt a ha'; omega), swlt a ha']
+      exact hI.lead a ha' c hc
+  · intro a ha j hj
+    by_cases hjl : j < rows.length
+    · split
+      · next e => subst e; rw [bk j hjl]; simpa using hj
+      · next e =>
+        have ha' : a < h := by omega
+        rw [bl j (piv a) hjl (hI.lt a ha')]
+        apply hI.uniq a ha'
+        intro e2
+        have := congrArg (sw h i) e2
+        rw [sw_sw, swlt a ha'] at this
+        exact hj this
+    · rw [stepRows_getD_ge _ _ _ _ _ _ (by omega)]; exact dflt_bit _ _
+  · intro j hj c hc
+    by_cases hjl : j < rows.length
+    · by_cases e : c = k
+      · subst e; rw [bk j hjl]; simp; omega
+      · rw [bl j c hjl (by omega)]
+        exact hI.low _ (swge j (by omega)) c (by omega)
+    · rw [stepRows_getD_ge _ _ _ _ _ _ (by omega)]; exact dflt_bit _ _
+
+theorem gauss_reduced (w : Nat) (rows : List Row) (hw : ∀ r, r ∈ rows → r.ps.length = w) :
+    Reduced w (gauss w rows) := by
+  obtain ⟨h', k', ⟨piv, hI⟩, hend⟩ := gauss_induct w (fun t h k => ∃ piv, RInv w t h k piv) rows
+    (fun t h k ⟨piv, hI⟩ _ hk hf =>
+      ⟨piv, hI.wid, by omega, hI.hle, hI.mono, fun i hi => by have := hI.lt i hi; omega, hI.one, hI.lead, hI.uniq,
+        fun j hj c hc => by
+          by_cases e : c = k
+          · subst e; exact firstFrom_none hf j hj
+          · exact hI.low j hj c (by omega)⟩)
+    (fun t h k i ⟨piv, hI⟩ _ hk hf => ⟨_, rinv_step hI hk hf⟩)
+    ⟨fun _ => 0, hw, by omega, by omega, fun _ _ _ hj => by omega, fun _ hi => by omega, fun _ hi => by omega,
+      fun _ hi => by omega, fun _ hi => by omega, fun _ _ c hc => by omega⟩
+  refine ⟨h', piv, hI.hle, hI.mono, fun i hi => by have := hI.lt i hi; have := hI.kle; omega, hI.one, hI.lead,
+    hI.uniq, ?_⟩
+  intro j hj c
+  rcases hend with hlen | hk
+  · rw [List.getD_eq_getElem?_getD, List.getElem?_eq_none (by omega)]; exact dflt_bit _ _
+  · by_cases hc : c < 2 * w + 1
+    · exact hI.low j hj c (by have := hI.kle; omega)
+    · exact bit_gt w _ c (by omega)
+
+theorem getD_of_getElem? {t : List Row} {i : Nat} {r : Row} (h : t[i]? = some r) : t.getD i dflt = r := by
+  rw [List.getD_eq_getElem?_getD, h]; rfl
+
+theorem getElem?_of_getD {t : List Row} {i : Nat} (h : i < t.length) : t[i]? = some (t.getD i dflt) := by
+  rw [List.getD_eq_getElem?_getD, List.getElem?_eq_getElem h]; rfl
+
+theorem lt_of_getElem? {t : List Row} {i : Nat} {r : Row} (h : t[i]? = some r) : i < t.length := by
+  by_cases hi : i < t.length
+  · exact hi
+  · rw [List.getElem?_eq_none (by omega)] at h; cases h
+
+theorem RedAt.inj {w : Nat} {t : List Row} {h : Nat} {piv : Nat → Nat} (R : RedAt w t h piv)
+    {i j : Nat} (hi : i < h) (hj : j < h) (e : piv i = piv j) : i = j := by
+  rcases Nat.lt_trichotomy i j with hlt | heq | hgt
+  · have := R.mono i j hlt hj; omega
+  · exact heq
+  · have := R.mono j i hgt hi; omega
+
+/-- in a reduced list only row 0 can have a bit in column 0 -/
+theorem reduced_col0 {w : Nat} {t : List Row} (hr : Reduced w t) (i : Nat)
+    (hb : (t.getD i dflt).bit w 0 = true) : i = 0 := by
+  obtain ⟨h, piv, R⟩ := hr
+  by_cases hi : i < h
+  · have hp : piv i = 0 := by
+      by_cases e : piv i = 0
+      · exact e
+      · have := R.lead i hi 0 (by omega); rw [this] at hb; cases hb
+    by_cases e : i = 0
+    · exact e
+    · have := R.mono 0 i (by omega) hi; omega
+  · have := R.zero i (by omega) 0; rw [this] at hb; cases hb
+
+/-- after elimination at most row 0 has an X/Y on the first qubit, and it does iff some input row did -/
+theorem gauss_col0 (w : Nat) (rows : List Row) (hwid : ∀ r, r ∈ rows → r.ps.length = w) (hw : 0 < w) :
+    let t := gauss w rows
+    (∀ i r, t[i]? = some r → r.bit w 0 = true → i = 0) ∧
+      ((∃ r, r ∈ rows ∧ r.bit w 0 = true) → ∃ r0, t[0]? = some r0 ∧ r0.bit w 0 = true) := by
+  intro t
+  have hred : Reduced w t := gauss_reduced w rows hwid
+  have part1 : ∀ i r, t[i]? = some r → r.bit w 0 = true → i = 0 := by
+    intro i r hi hb
+    exact reduced_col0 hred i (by rw [getD_of_getElem? hi]; exact hb)
+  refine ⟨part1, ?_⟩
+  intro hex
+  obtain ⟨_, _, ⟨_, hP⟩, _⟩ := gauss_induct w
+    (fun t h k => (∃ piv, RInv w t h k piv) ∧ ∃ r, r ∈ t ∧ r.bit w 0 = true) rows
+    (fun t h k ⟨⟨piv, hI⟩, hP⟩ _ hk hf =>
+      ⟨⟨piv, hI.wid, by omega, hI.hle, hI.mono, fun i hi => by have := hI.lt i hi; omega, hI.one, hI.lead, hI.uniq,
+        fun j hj c hc => by
+          by_cases e : c = k
+          · subst e; exact firstFrom_none hf j hj
+          · exact hI.low j hj c (by omega)⟩, hP⟩)
+    (fun t h k i ⟨⟨piv, hI⟩, ⟨r, hr, hb⟩⟩ hh hk hf => by
+      refine ⟨⟨_, rinv_step hI hk hf⟩, ?_⟩
+      obtain ⟨hhi, hil, hone, _⟩ := firstFrom_some hf
+      by_cases hk0 : k = 0
+      · subst hk0
+        exact ⟨_, piv_mem_stepRows hh, hone⟩
+      · rcases mem_stepRows_conv (w := w) (k := k) hh hil hr with hm | hm
+        · exact ⟨r, hm, hb⟩
+        · refine ⟨_, hm, ?_⟩
+          rw [mulRow_bit w _ _ ((hI.wid r hr).trans (hI.wid _ (getD_mem t i hil)).symm) 0 (by omega), hb,
+            hI.low i hhi 0 (by omega)]
+          rfl)
+    ⟨⟨fun _ => 0, hwid, by omega, by omega, fun _ _ _ hj => by omega, fun _ hi => by omega, fun _ hi => by omega,
+      fun _ hi => by omega, fun _ hi => by omega, fun _ _ c hc => by omega⟩, hex⟩
+  obtain ⟨r, hr, hb⟩ := hP
+  obtain ⟨j, hj, e⟩ := mem_getD hr
+  have hj0 : j = 0 := reduced_col0 hred j (by rw [e]; exact hb)
+  subst hj0
+  exact ⟨r, by rw [getElem?_of_getD hj, e], hb⟩
+
+/-! ### GF(2) sums of selected rows -/
+
+/-- GF(2) dot product (zip semantics) -/
+def dot : List Bool → List Bool → Bool
+  | a :: as, b :: bs => (a && b) != dot as bs
+  | _, _ => false
+
+theorem dot_nil_right (c : List Bool) : dot c [] = false := by cases c <;> rfl
+
+theorem dot_zero (c v : List Bool) (h : ∀ j, (c.getD j false && v.getD j false) = false) : dot c v = false := by
+  induction c generalizing v with
+  | nil => rfl
+  | cons a as ih =>
+    cases v with
+    | nil => rfl
+    | cons b bs =>
+      have h0 := h 0
+      simp only [List.getD_cons_zero] at h0
+      have := ih bs (fun j => by simpa using h (j + 1))
+      simp [dot, h0, this]
+
+theorem dot_single (c v : List Bool) (j0 : Nat)
+    (h : ∀ j, j ≠ j0 → (c.getD j false && v.getD j false) = false) :
+    dot c v = (c.getD j0 false && v.getD j0 false) := by
+  induction c generalizing v j0 with
+  | nil => simp [dot]
+  | cons a as ih =>
+    cases v with
+    | nil => simp [dot]
+    | cons b bs =>
+      cases j0 with
+      | zero =>
+        have := dot_zero as bs (fun j => by simpa using h (j + 1) (by omega))
+        simp [dot, this]
+      | succ j0 =>
+        have h0 := h 0 (by omega)
+        simp only [List.getD_cons_zero] at h0
+        have := ih bs j0 (fun j hj => by simpa using h (j + 1) (by omega))
+        simp [dot, h0, this]
+
+/-- column `k` of the GF(2) sum of the rows of `t` selected by `c` -/
+def selXor (w k : Nat) (c : List Bool) (t : List Row) : Bool := dot c (t.map fun r => r.bit w k)
+
+theorem map_bit_getD (w k : Nat) (t : List Row) (j : Nat) :
+    (t.map fun r => r.bit w k).getD j false = (t.getD j dflt).bit w k := by
+  by_cases hj : j < t.length
+  · simp [List.getD_eq_getElem?_getD, List.getElem?_eq_getElem hj]
+  · simp [List.getD_eq_getElem?_getD, List.getElem?_eq_none (show t.length ≤ j by omega)]
+
+theorem selXor_single (w k : Nat) (c : List Bool) (t : List Row) (j0 : Nat)
+    (h : ∀ j, j ≠ j0 → (c.getD j false && (t.getD j dflt).bit w k) = false) :
+    selXor w k c t = (c.getD j0 false && (t.getD j0 dflt).bit w k) := by
+  unfold selXor
+  rw [dot_single _ _ j0 (fun j hj => by rw [map_bit_getD]; exact h j hj), map_bit_getD]
+
+theorem selXor_zero (w k : Nat) (c : List Bool) (t : List Row)
+    (h : ∀ j, (c.getD j false && (t.getD j dflt).bit w k) = false) : selXor w k c t = false := by
+  unfold selXor
+  exact dot_zero _ _ (fun j => by rw [map_bit_getD]; exact h j)
+
+theorem getP_replicate_I1 (n j : Nat) : getP (List.replicate n I1) j = (false, false) := by
+  unfold getP
+  by_cases hj : j < n
+  · simp [List.getD_eq_getElem?_getD, hj, I1]
+  · simp [List.getD_eq_getElem?_getD, hj]
+
+theorem lbit_one (n k : Nat) : lbit n (one n).ps k = false := by
+  simp [lbit, one, getP_replicate_I1]
+
+/-- letter column `k` of a product of selected rows is the GF(2) sum of the rows' bits -/
+theorem prodSel_bit (n : Nat) (c : List Bool) (t : List Row) (hw : ∀ r, r ∈ t → r.ps.length = n) (k : Nat)
+    (hk : k < 2 * n) : lbit n (prodSel n c (dens t)).ps k = selXor n k c t := by
+  induction t generalizing c with
+  | nil => rw [dens, List.map_nil, prodSel_nil_right, lbit_one]; simp [selXor, dot_nil_right]
+  | cons r rs ih =>
+    cases c with
+    | nil => rw [prodSel_nil_left, lbit_one]; rfl
+    | cons a cs =>
+      have hrs : ∀ q, q ∈ rs → q.ps.length = n := fun q hq => hw q (by simp [hq])
+      have IH := ih cs hrs
+      have hl := prodSel_len n cs (dens rs) (rowsOK_dens hrs)
+      simp only [dens, List.map_cons, prodSel, selXor, dot] at *
+      cases a
+      · simpa using IH
+      · simp only [if_true, POp.mul, Bool.true_and]
+        rw [lbit_mulL n _ _ (by simpa [POp.len, Row.den] using (hw r (by simp)).trans hl.symm), IH, bit_lt n r k hk]
+        rfl
+
+/-- if the unit vector `e_k` (`k < 2w`, sign ignored) is a GF(2) sum of rows of a
+reduced list, then `k` is a pivot column, its pivot row is exactly `± e_k` on the
+letter columns and no other row has bit `k` -/
+theorem reduced_unit_row (w : Nat) (t : List Row) (hr : Reduced w t) (k : Nat) (hk : k < 2 * w) (c : List Bool)
+    (hsum : ∀ j, j < 2 * w → selXor w j c t = decide (j = k)) :
+    ∃ i, i < t.length ∧ (∀ j, j < 2 * w → (t.getD i dflt).bit w j = decide (j = k)) ∧
+      (∀ i', i' ≠ i → (t.getD i' dflt).bit w k = false) := by
+  obtain ⟨h, piv, R⟩ := hr
+  have key1 : ∀ i, i < h → piv i < 2 * w → c.getD i false = decide (piv i = k) := by
+    intro i hi hp
+    have := selXor_single w (piv i) c t i (fun j hj => by rw [R.uniq i hi j hj]; simp)
+    rw [R.one i hi, Bool.and_true, hsum _ hp] at this
+    exact this.symm
+  have hex : ∃ i0, i0 < h ∧ piv i0 = k := by
+    apply Classical.byContradiction
+    intro hno
+    have hno' : ∀ i, i < h → piv i ≠ k := fun i hi e => hno ⟨i, hi, e⟩
+    have := selXor_zero w k c t (fun j => by
+      by_cases hj : j < h
+      · by_cases hp : piv j < 2 * w
+        · rw [key1 j hj hp, decide_eq_false (hno' j hj)]; rfl
+        · rw [R.lead j hj k (by omega)]; simp
+      · rw [R.zero j (by omega) k]; simp)
+    rw [hsum k hk] at this
+    simp at this
+  obtain ⟨i0, hi0, hp0⟩ := hex
+  refine ⟨i0, by have := R.hle; omega, ?_, ?_⟩
+  · intro j hj
+    have := selXor_single w j c t i0 (fun i hi => by
+      by_cases hih : i < h
+      · by_cases hp : piv i < 2 * w
+        · rw [key1 i hih hp, decide_eq_false (fun e => hi (R.inj hih hi0 (e.trans hp0.symm)))]; rfl
+        · rw [R.lead i hih j (by omega)]; simp
+      · rw [R.zero i (by omega) j]; simp)
+    rw [key1 i0 hi0 (by omega), decide_eq_true hp0, Bool.true_and, hsum j hj] at this
+    exact this.symm
+  · intro i' hi'
+    rw [← hp0]
+    exact R.uniq i0 hi0 i' hi'
+
+/-! ### selection vectors: unit vectors, matrices, composition of selections -/
+
+theorem replicate_getD (m j : Nat) : (List.replicate m false).getD j false = false := by
+  by_cases hj : j < m <;> simp [List.getD_eq_getElem?_getD, hj]
+
+inductive All2 {α β : Type} (R : α → β → Prop) : List α → List β → Prop
+  | nil : All2 R [] []
+  | cons {a : α} {b : β} {as : List α} {bs : List β} : R a b → All2 R as bs → All2 R (a :: as) (b :: bs)
+
+def unitv : Nat → Nat → List Bool
+  | 0, _ => []
+  | m + 1, 0 => true :: List.replicate m false
+  | m + 1, a + 1 => false :: unitv m a
+
+theorem unitv_length (m a : Nat) : (unitv m a).length = m := by
+  induction m generalizing a with
+  | zero => rfl
+  | succ m ih => cases a <;> simp [unitv, ih]
+
+theorem unitv_getD (m a j : Nat) (ha : a < m) : (unitv m a).getD j false = decide (j = a) := by
+  induction m generalizing a j with
+  | zero => omega
+  | succ m ih =>
+    cases a with
+    | zero =>
+      cases j with
+      | zero => simp [unitv]
+      | succ j => simp only [unitv, List.getD_cons_succ, replicate_getD]; simp
+    | succ a =>
+      cases j with
+      | zero => simp [unitv]
+      | succ j => simpa [unitv] using ih a j (by omega)
+
+theorem xorL_getD (a b : List Bool) (h : a.length = b.length) (j : Nat) :
+    (xorL a b).getD j false = (a.getD j false != b.getD j false) := by
+  induction a generalizing b j with
+  | nil => cases b <;> simp_all [xorL]
+  | cons x xs ih =>
+    cases b with
+    | nil => simp at h
+    | cons y ys =>
+      cases j with
+      | zero => simp [xorL]
+      | succ j => simpa [xorL] using ih ys (by simpa using h) j
+
+theorem list_ext_getD (a b : List Bool) (h : a.length = b.length)
+    (hp : ∀ j, j < a.length → a.getD j false = b.getD j false) : a = b := by
+  apply List.ext_getElem h
+  intro i h1 h2
+  have := hp i h1
+  simpa [List.getD_eq_getElem?_getD, List.getElem?_eq_getElem h1, List.getElem?_eq_getElem h2] using this
+
+theorem prodSel_unitv (n : Nat) (g : List Row) (hw : ∀ r, r ∈ g → r.ps.length = n) (a : Nat) (ha : a < g.length) :
+    prodSel n (unitv g.length a) (dens g) ≈ₚ (g.getD a dflt).den := by
+  induction g generalizing a with
+  | nil => simp at ha
+  | cons r rs ih =>
+    cases a with
+    | zero =>
+      simp only [List.length_cons, unitv, dens, List.map_cons, prodSel, if_true, List.getD_cons_zero]
+      rw [prodSel_zeros]
+      exact mul_one n _ (hw r (by simp))
+    | succ a =>
+      simp only [List.length_cons, unitv, dens, List.map_cons, prodSel, List.getD_cons_succ]
+      exact ih (fun q hq => hw q (by simp [hq])) a (by simpa using ha)
+
+/-- `c · M` over GF(2): the sum of the rows of `M` selected by `c` -/
+def vecMat (m : Nat) : List Bool → List (List Bool) → List Bool
+  | c :: cs, r :: rs => if c then xorL r (vecMat m cs rs) else vecMat m cs rs
+  | _, _ => List.replicate m false
+
+theorem vecMat_nil_left (m : Nat) (M : List (List Bool)) : vecMat m [] M = List.replicate m false := by
+  cases M <;> rfl
+theorem vecMat_nil_right (m : Nat) (c : List Bool) : vecMat m c [] = List.replicate m false := by
+  cases c <;> rfl
+
+theorem vecMat_length (m : Nat) (c : List Bool) (M : List (List Bool)) (hM : ∀ r, r ∈ M → r.length = m) :
+    (vecMat m c M).length = m := by
+  induction M generalizing c with
+  | nil => rw [vecMat_nil_right]; simp
+  | cons r rs ih =>
+    cases c with
+    | nil => simp [vecMat]
+    | cons a cs =>
+      have := ih cs (fun q hq => hM q (by simp [hq]))
+      simp only [vecMat]
+      split
+      · rw [xorL_length _ _ ((hM r (by simp)).trans this.symm)]; exact hM r (by simp)
+      · exact this
+
+theorem vecMat_getD (m : Nat) (c : List Bool) (M : List (List Bool)) (hM : ∀ r, r ∈ M → r.length = m) (j : Nat) :
+    (vecMat m c M).getD j false = dot c (M.map fun r => r.getD j false) := by
+  induction M generalizing c with
+  | nil => rw [vecMat_nil_right, replicate_getD]; simp [dot_nil_right]
+  | cons r rs ih =>
+    cases c with
+    | nil => simp only [vecMat, dot, replicate_getD]
+    | cons a cs =>
+      have hrs : ∀ q, q ∈ rs → q.length = m := fun q hq => hM q (by simp [hq])
+      have := ih cs hrs
+      have hl := vecMat_length m cs rs hrs
+      simp only [vecMat, List.map_cons, dot]
+      cases a
+      · simpa using this
+      · simp only [if_true, Bool.true_and]
+        rw [xorL_getD _ _ ((hM r (by simp)).trans hl.symm), this]
+
+theorem dot_xorL (c d v : List Bool) (h : c.length = d.length) : dot (xorL c d) v = (dot c v != dot d v) := by
+  induction c generalizing d v with
+  | nil => cases d <;> simp_all [xorL, dot]
+  | cons a as ih =>
+    cases d with
+    | nil => simp at h
+    | cons b bs =>
+      cases v with
+      | nil => simp [dot_nil_right]
+      | cons x xs =>
+        simp only [xorL, dot, ih bs xs (by simpa using h)]
+        cases a <;> cases b <;> cases x <;> cases dot as xs <;> cases dot bs xs <;> rfl
+
+theorem vecMat_xorL (m : Nat) (c d : List Bool) (M : List (List Bool)) (hM : ∀ r, r ∈ M → r.length = m)
+    (h : c.length = d.length) : vecMat m (xorL c d) M = xorL (vecMat m c M) (vecMat m d M) := by
+  have l1 := vecMat_length m c M hM
+  have l2 := vecMat_length m d M hM
+  apply list_ext_getD
+  · rw [vecMat_length m _ M hM, xorL_length _ _ (l1.trans l2.symm), l1]
+  · intro j _
+    rw [xorL_getD _ _ (l1.trans l2.symm), vecMat_getD m _ M hM, vecMat_getD m _ M hM, vecMat_getD m _ M hM,
+      dot_xorL _ _ _ h]
+
+theorem forall2_of_getD {α β : Type} (R : α → β → Prop) (d1 : α) (d2 : β) (l1 : List α) (l2 : List β)
+    (hl : l1.length = l2.length) (h : ∀ i, i < l1.length → R (l1.getD i d1) (l2.getD i d2)) :
+    All2 R l1 l2 := by
+  induction l1 generalizing l2 with
+  | nil => cases l2 with
+    | nil => exact All2.nil
+    | cons b bs => simp at hl
+  | cons a as ih =>
+    cases l2 with
+    | nil => simp at hl
+    | cons b bs =>
+      refine All2.cons (by simpa using h 0 (by simp)) (ih bs (by simpa using hl) ?_)
+      intro i hi
+      simpa using h (i + 1) (by simpa using hi)
+
+/-- if every row of `g'` is the product selected by the corresponding row of `M`, then a
+selection of `g'` is the selection `c · M` of `g` -/
+theorem prodSel_comp (n : Nat) (g : List Row) (hg : Commuting n g) (g' : List Row) (M : List (List Bool))
+    (hM : All2 (fun (r : Row) (mv : List Bool) => mv.length = g.length ∧ r.den ≈ₚ prodSel n mv (dens g)) g' M)
+    (c : List Bool) :
+    prodSel n c (dens g') ≈ₚ prodSel n (vecMat g.length c M) (dens g) := by
+  induction hM generalizing c with
+  | nil =>
+    rw [vecMat_nil_right, prodSel_zeros, dens, List.map_nil, prodSel_nil_right]; exact eqv_refl _
+  | @cons r mv g' M hr hrest ih =>
+    cases c with
+    | nil => rw [vecMat_nil_left, prodSel_zeros, prodSel_nil_left]; exact eqv_refl _
+    | cons a cs =>
+      have hMl : ∀ q, q ∈ M → q.length = g.length := by
+        intro q hq
+        clear ih
+        induction hrest with
+        | nil => simp at hq
+        | cons h1 _ ih2 =>
+          rcases List.mem_cons.1 hq with rfl | hq'
+          · exact h1.1
+          · exact ih2 hq'
+      have IH := ih cs
+      simp only [dens, List.map_cons, prodSel, vecMat]
+      cases a
+      · simpa [dens] using IH
+      · simp only [if_true]
+        have hl := vecMat_length g.length cs M hMl
+        have hx := prodSel_xor n mv (vecMat g.length cs M) (dens g) (by simpa [dens] using hr.1)
+          (by simpa [dens] using hl) (rowsOK_dens hg.width) (pairComm_dens hg)
+        exact eqv_trans (mul_congr hr.2 IH) (eqv_symm hx)
+
+/-- `g'` is obtained from `g` by an injective GF(2)-linear change of selection vectors -/
+def Emb (n : Nat) (g' g : List Row) : Prop :=
+  ∃ f : List Bool → List Bool,
+    (∀ c, c.length = g'.length → (f c).length = g.length ∧ prodSel n c (dens g') ≈ₚ prodSel n (f c) (dens g)) ∧
+    (∀ c d, c.length = g'.length → d.length = g'.length → f (xorL c d) = xorL (f c) (f d)) ∧
+    (∀ c, c.length = g'.length → f c = List.replicate g.length false → c = List.replicate g'.length false)
+
+theorem Emb.refl (n : Nat) (g : List Row) : Emb n g g :=
+  ⟨id, fun _ hc => ⟨hc, eqv_refl _⟩, fun _ _ _ _ => rfl, fun _ _ h => h⟩
+
+theorem Emb.trans {n : Nat} {g1 g2 g3 : List Row} (e1 : Emb n g1 g2) (e2 : Emb n g2 g3) : Emb n g1 g3 := by
+  obtain ⟨f, hf1, hf2, hf3⟩ := e1
+  obtain ⟨f', hf1', hf2', hf3'⟩ := e2
+  refine ⟨f' ∘ f, ?_, ?_, ?_⟩
+  · intro c hc
+    have a := hf1 c hc
+    have b := hf1' (f c) a.1
+    exact ⟨b.1, eqv_trans a.2 b.2⟩
+  · intro c d hc hd
+    simp only [Function.comp]
+    rw [hf2 c d hc hd, hf2' _ _ (hf1 c hc).1 (hf1 d hd).1]
+  · intro c hc h
+    exact hf3 c hc (hf3' (f c) (hf1 c hc).1 h)
+
+theorem emb_of_matrix (n : Nat) (g : List Row) (hg : Commuting n g) (g' : List Row) (M : List (List Bool))
+    (hlen : M.length = g'.length)
+    (hM : ∀ idx, idx < g'.length → (M.getD idx []).length = g.length ∧
+      (g'.getD idx dflt).den ≈ₚ prodSel n (M.getD idx []) (dens g))
+    (hinj : ∀ c : List Bool, c.length = g'.length →
+      (∀ j, j < g.length → dot c (M.map fun r => r.getD j false) = false) →
+      ∀ idx, idx < g'.length → c.getD idx false = false) : Emb n g' g := by
+  have hMl : ∀ q, q ∈ M → q.length = g.length := by
+    intro q hq
+    obtain ⟨j, hj, e⟩ := List.mem_iff_getElem.1 hq
+    have := (hM j (by omega)).1
+    rw [List.getD_eq_getElem?_getD, List.getElem?_eq_getElem hj] at this
+    simpa [e] using this
+  have hF : All2 (fun (r : Row) (mv : List Bool) => mv.length = g.length ∧ r.den ≈ₚ prodSel n mv (dens g)) g' M :=
+    forall2_of_getD _ dflt [] g' M hlen.symm hM
+  refine ⟨fun c => vecMat g.length c M, ?_, ?_, ?_⟩
+  · intro c _
+    exact ⟨vecMat_length _ _ _ hMl, prodSel_comp n g hg g' M hF c⟩
+  · intro c d hc hd
+    exact vecMat_xorL _ _ _ _ hMl (hc.trans hd.symm)
+  · intro c hc h0
+    simp only at h0
+    apply list_ext_getD
+    · simp [hc]
+    · intro idx hidx
+      rw [hinj c hc (fun j _ => by rw [← vecMat_getD _ _ _ hMl, h0, replicate_getD]) idx (by omega), replicate_getD]
+
+/-! ### the selection matrix of an elimination step -/
+
+/-- row `idx` is `e_(s idx)`, plus `e_b` where `cond idx` -/
+def stepMat (len : Nat) (s : Nat → Nat) (b : Nat) (cond : Nat → Bool) : List (List Bool) :=
+  (List.range len).map fun idx => if cond idx then xorL (unitv len (s idx)) (unitv len b) else unitv len (s idx)
+
+theorem stepMat_length (len : Nat) (s : Nat → Nat) (b : Nat) (cond : Nat → Bool) :
+    (stepMat len s b cond).length = len := by simp [stepMat]
+
+theorem stepMat_getD (len : Nat) (s : Nat → Nat) (b : Nat) (cond : Nat → Bool) (idx : Nat) (hidx : idx < len) :
+    (stepMat len s b cond).getD idx [] =
+      if cond idx then xorL (unitv len (s idx)) (unitv len b) else unitv len (s idx) := by
+  simp [stepMat, List.getD_eq_getElem?_getD, List.getElem?_map, List.getElem?_range hidx]
+
+theorem range_map_getD (len : Nat) (F : Nat → Bool) (idx : Nat) :
+    ((List.range len).map F).getD idx false = if idx < len then F idx else false := by
+  by_cases h : idx < len
+  · simp [List.getD_eq_getElem?_getD, h]
+  · simp [List.getD_eq_getElem?_getD, h]
+
+theorem stepMat_col (len : Nat) (s : Nat → Nat) (b : Nat) (cond : Nat → Bool)
+    (hs : ∀ x, x < len → s x < len) (hb : b < len) (j idx : Nat) :
+    ((stepMat len s b cond).map fun r => r.getD j false).getD idx false =
+      if idx < len then (decide (j = s idx) != (cond idx && decide (j = b))) else false := by
+  unfold stepMat
+  rw [List.map_map]
+  rw [range_map_getD]
+  split
+  · next h =>
+    simp only [Function.comp]
+    cases hc : cond idx
+    · simp only [Bool.false_eq_true, if_false, Bool.false_and, Bool.bne_false]
+      exact unitv_getD len (s idx) j (hs idx h)
+    · simp only [if_true, Bool.true_and]
+      rw [xorL_getD _ _ (by rw [unitv_length, unitv_length]), unitv_getD len (s idx) j (hs idx h),
+        unitv_getD len b j hb]
+  · rfl
+
+theorem stepMat_inj (len : Nat) (s : Nat → Nat) (a b : Nat) (cond : Nat → Bool)
+    (hs : ∀ x, x < len → s x < len) (hss : ∀ x, x < len → s (s x) = x)
+    (ha : a < len) (hb : b < len) (hab : s a = b) (hca : cond a = false) (c : List Bool)
+    (h0 : ∀ j, j < len → dot c ((stepMat len s b cond).map fun r => r.getD j false) = false) :
+    ∀ idx, idx < len → c.getD idx false = false := by
+  have hsb : s b = a := by rw [← hab, hss a ha]
+  have part1 : ∀ idx, idx < len → idx ≠ a → c.getD idx false = false := by
+    intro idx hidx hne
+    have hsne : s idx ≠ b := fun e => hne (by rw [← hss idx hidx, e, hsb])
+    have := dot_single c ((stepMat len s b cond).map fun r => r.getD (s idx) false) idx (by
+      intro idx' hne'
+      rw [stepMat_col len s b cond hs hb]
+      split
+      · next hl =>
+        have e1 : decide (s idx = s idx') = false :=
+          decide_eq_false (fun e => hne' (by rw [← hss idx' hl, ← e, hss idx hidx]))
+        rw [e1, decide_eq_false hsne]; simp
+      · simp)
+    rw [h0 (s idx) (hs idx hidx), stepMat_col len s b cond hs hb, if_pos hidx, decide_eq_false hsne] at this
+    simpa using this.symm
+  intro idx hidx
+  by_cases e : idx = a
+  · subst e
+    have := dot_single c ((stepMat len s b cond).map fun r => r.getD b false) idx (by
+      intro idx' hne'
+      by_cases hl : idx' < len
+      · rw [part1 idx' hl hne']; rfl
+      · rw [stepMat_col len s b cond hs hb, if_neg hl]; simp)
+    rw [h0 b hb, stepMat_col len s b cond hs hb, if_pos hidx, hca, hab] at this
+    simpa using this.symm
+  · exact part1 idx hidx e
+
+theorem stepRows_emb {w n : Nat} {rows : List Row} {h k i : Nat} (hg : Commuting n rows)
+    (hh : h < rows.length) (hi : i < rows.length) :
+    Emb n (stepRows w rows h k i) rows ∧ Emb n rows (stepRows w rows h k i) := by
+  have hg' : Commuting n (stepRows w rows h k i) := stepRows_commuting hg hh hi
+  have hlen := stepRows_length w rows h k i
+  have hs : ∀ x, x < rows.length → sw h i x < rows.length := fun x hx => sw_lt hh hi hx
+  have hss : ∀ x, x < rows.length → sw h i (sw h i x) = x := fun x _ => sw_sw h i x
+  have hp : rows.getD i dflt ∈ rows := getD_mem rows i hi
+  constructor
+  · -- new rows in terms of old rows
+    apply emb_of_matrix n rows hg _
+      (stepMat rows.length (sw h i) i fun idx => decide (idx ≠ h) && (rows.getD (sw h i idx) dflt).bit w k)
+    · rw [stepMat_length, hlen]
+    · intro idx hidx
+      rw [hlen] at hidx
+      have hm := getD_mem rows (sw h i idx) (hs idx hidx)
+      have e1 := prodSel_unitv n rows hg.width (sw h i idx) (hs idx hidx)
+      have e2 := prodSel_unitv n rows hg.width i hi
+      rw [stepMat_getD _ _ _ _ _ hidx, stepRows_getD _ _ _ _ _ _ hidx]
+      simp only
+      by_cases hc : idx ≠ h ∧ (rows.getD (sw h i idx) dflt).bit w k = true
+      · rw [if_pos hc, if_pos (by rw [hc.2, Bool.and_true]; exact decide_eq_true hc.1)]
+        refine ⟨by rw [xorL_length _ _ (by rw [unitv_length, unitv_length]), unitv_length], ?_⟩
+        refine eqv_trans (mulRow_den _ _ ((hg.width _ hm).trans (hg.width _ hp).symm) (hg.comm _ hm _ hp)) ?_
+        refine eqv_trans (mul_congr (eqv_symm e1) (eqv_symm e2)) ?_
+        exact eqv_symm (prodSel_xor n _ _ (dens rows) (by simp [dens, unitv_length]) (by simp [dens, unitv_length])
+          (rowsOK_dens hg.width) (pairComm_dens hg))
+      · rw [if_neg hc, if_neg (by intro hb; rw [Bool.and_eq_true, decide_eq_true_eq] at hb; exact hc hb)]
+        exact ⟨unitv_length _ _, eqv_symm e1⟩
+    · intro c _ h0 idx hidx
+      rw [hlen] at hidx
+      exact stepMat_inj rows.length (sw h i) h i _ hs hss hh hi (by simp [sw]) (by simp) c h0 idx hidx
+  · -- old rows in terms of new rows
+    apply emb_of_matrix n _ hg' rows
+      (stepMat rows.length (sw h i) h fun j => decide (sw h i j ≠ h) && (rows.getD j dflt).bit w k)
+    · rw [stepMat_length]
+    · intro j hj
+      have hsj := hs j hj
+      have hm := getD_mem rows j hj
+      have e1 := prodSel_unitv n _ hg'.width (sw h i j) (by rw [hlen]; exact hsj)
+      have e2 := prodSel_unitv n _ hg'.width h (by rw [hlen]; exact hh)
+      have n1 := stepRows_getD w rows h k i (sw h i j) hsj
+      have n2 := stepRows_getD w rows h k i h hh
+      rw [sw_sw] at n1
+      have : sw h i h = i := by simp [sw]
+      simp only [this, ne_eq, not_true_eq_false, false_and, if_false] at n2
+      rw [hlen] at e1 e2
+      rw [n1] at e1
+      rw [n2] at e2
+      rw [stepMat_getD _ _ _ _ _ hj, hlen]
+      simp only at e1
+      by_cases hc : sw h i j ≠ h ∧ (rows.getD j dflt).bit w k = true
+      · rw [if_pos hc] at e1
+        rw [if_pos (by rw [hc.2, Bool.and_true]; exact decide_eq_true hc.1)]
+        refine ⟨by rw [xorL_length _ _ (by rw [unitv_length, unitv_length]), unitv_length], ?_⟩
+        have e := mulRow_den (rows.getD j dflt) (rows.getD i dflt) ((hg.width _ hm).trans (hg.width _ hp).symm)
+          (hg.comm _ hm _ hp)
+        have hx := prodSel_xor n (unitv rows.length (sw h i j)) (unitv rows.length h) (dens (stepRows w rows h k i))
+          (by simp [dens, unitv_length, hlen]) (by simp [dens, unitv_length, hlen])
+          (rowsOK_dens hg'.width) (pairComm_dens hg')
+        refine eqv_symm (eqv_trans hx ?_)
+        refine eqv_trans (mul_congr (eqv_trans e1 e) e2) ?_
+        exact mul_mul_cancel n _ _ (hg.width _ hm) (hg.width _ hp) (den_herm _)
+      · rw [if_neg hc] at e1
+        rw [if_neg (by intro hb; rw [Bool.and_eq_true, decide_eq_true_eq] at hb; exact hc hb)]
+        exact ⟨unitv_length _ _, eqv_symm e1⟩
+    · intro c _ h0 idx hidx
+      rw [hlen] at h0
+      exact stepMat_inj rows.length (sw h i) i h _ hs hss hi hh (by simp [sw]) (by simp [sw]) c h0 idx hidx
+
+theorem gauss_emb (n : Nat) (rows : List Row) (hg : Commuting n rows) :
+    Emb n (gauss n rows) rows ∧ Emb n rows (gauss n rows) := by
+  have := gauss_preserve n (fun t => Commuting n t ∧ Emb n t rows ∧ Emb n rows t) rows
+    (fun t h k i hP hf => by
+      obtain ⟨h1, h2, _, _⟩ := firstFrom_some hf
+      have e := stepRows_emb (w := n) (k := k) hP.1 (show h < t.length by omega) h2
+      exact ⟨stepRows_commuting hP.1 (by omega) h2, e.1.trans hP.2.1, hP.2.2.trans e.2⟩)
+    ⟨hg, Emb.refl _ _, Emb.refl _ _⟩
+  exact this.2
+
+/-! ### validity is preserved -/
+
+theorem gauss_valid (n : Nat) (rows : List Row) (h : Valid n rows) : Valid n (gauss n rows) := by
+  have hc := gauss_commuting n rows h.toCommuting
+  obtain ⟨f, hf1, _, hf3⟩ := (gauss_emb n rows h.toCommuting).1
+  refine { toCommuting := hc, count := by rw [gauss_length]; exact h.count, indep := ?_ }
+  intro c hl hps
+  have a := hf1 c hl
+  have := h.indep (f c) a.1 (by rw [← a.2.1]; exact hps)
+  exact hf3 c hl this
+
+theorem gauss_validMax (n : Nat) (rows : List Row) (h : ValidMax n rows) : ValidMax n (gauss n rows) := by
+  have hv := gauss_valid n rows h.toValid
+  have hs := gauss_sameGroup n rows h.toCommuting
+  refine { toValid := hv, maximal := ?_ }
+  intro p hpl hph hpc
+  have : ∀ r, r ∈ rows → antiL p.ps r.ps = false := by
+    intro r hr
+    have hin : InGroup n (gauss n rows) r.den := (hs r.den).2 (inGroup_mem h.width hr)
+    exact inGroup_comm hv.width hpl hpc hin
+  rcases h.maximal p hpl hph this with h1 | h1
+  · exact Or.inl ((hs p).2 h1)
+  · exact Or.inr ((hs p.neg).2 h1)
+
+end SqVerif.Stab.Gauss
+
+namespace SqVerif.Stab
+export Gauss (
+  mulRow_den mulRow_len mulRow_bit mulRow_neg_id
+  Gen gen_of_inGroup inGroup_of_gen gen_mono sameGroup_of_mutual sameGroup_refl sameGroup_symm sameGroup_trans
+  inGroup_one inGroup_eqv inGroup_mem inGroup_mul inGroup_len inGroup_herm inGroup_comm comm_of_inGroup
+  commuting_of_rows_inGroup inGroup_mulRow
+  dflt stepRows gauss_induct gauss_preserve gauss_length gauss_commuting gauss_sameGroup
+  lbit bit_lt bit_sign bit_gt lbit_mulL letters_id_of_bits
+  RedAt Reduced gauss_reduced reduced_col0 gauss_col0 getD_of_getElem? getElem?_of_getD lt_of_getElem? getD_mem mem_getD
+  dot selXor selXor_single selXor_zero prodSel_bit reduced_unit_row
+  unitv prodSel_unitv Emb gauss_emb gauss_valid gauss_validMax)
 end SqVerif.Stab
